@@ -1104,8 +1104,25 @@ func (g *gen) longBlock() *node {
 	}
 }
 
-// genCase draws one generated template.
+// genCase draws one generated template; 1 in 40 gets 2-5 companions that are formatted at the
+// same time.
 func (g0 *genEnv) genCase(t *rapid.T) Case {
+	c := g0.genOne(t)
+	g := &gen{genEnv: g0, t: t}
+	if c.Long == 0 && g.chance("conc", 40) {
+		c.ConcVia = g.pick("concvia", []string{"string", "shared"})
+		n := g.n("concn", 2, 5)
+		for i := 0; i < n; i++ {
+			k := g0.genOne(t)
+			k.Long, k.After, k.Ctor, k.Indent, k.NoFinal = 0, "", "", 0, false
+			k.Body = strings.ReplaceAll(k.Body, longTok, "x")
+			c.Conc = append(c.Conc, k)
+		}
+	}
+	return c
+}
+
+func (g0 *genEnv) genOne(t *rapid.T) Case {
 	g := &gen{genEnv: g0, t: t}
 	c := Case{Kind: "gen"}
 	g.bytes = g.chance("bytes", 10)
@@ -1210,6 +1227,8 @@ func (g0 *genEnv) genCase(t *rapid.T) Case {
 	if g.chance("opts", 5) {
 		c.Indent = rapid.SampledFrom([]int{4, 1, 8}).Draw(t, "indent")
 		c.NoFinal = g.chance("nofinal", 2)
+	} else if g.chance("ctor", 3) {
+		c.Ctor = g.pick("ctork", []string{"string", "options", "zero", "flat"})
 	}
 	return c
 }
